@@ -7,6 +7,9 @@ type SolSeq struct {
 	Ops     []string `json:"ops"`             // per Solutions: a string over N(ext) S(can) E(rr) C(lose)
 	Order   string   `json:"order,omitempty"` // merge order over 'A' / 'B' (which Solutions issues its next call); "" = all of A
 	Var     string   `json:"var,omitempty"`   // name of the query variable reported by Scan (default X)
+	// Solution: the queries are opened with QuerySolutionContext instead (a *prolog.Solution has Scan and Err only:
+	// ops over S and E; nothing is closed by the caller, the library has to release the search by itself)
+	Solution bool `json:"solution,omitempty"`
 }
 
 // SolSeqOp is the observation of one call.
@@ -16,7 +19,10 @@ type SolSeqOp struct {
 	Cleanup bool   `json:"cleanup,omitempty"` // Close added by the worker after the requested calls (Solutions still open)
 	Bool    *bool  `json:"bool,omitempty"`    // Next: the result
 	Val     string `json:"val,omitempty"`     // Scan: JSON of the value scanned for Var into map[string]interface{} ("absent" if no such key)
-	Nil     bool   `json:"nil,omitempty"`     // Scan / Err / Close returned a nil error
+	// ValReuse: the same Scan repeated into a destination (a struct with an interface{} field) that already received the
+	// earlier answers of this Solutions ("" = not done: no such variable, or the first Scan failed)
+	ValReuse string `json:"val_reuse,omitempty"`
+	Nil      bool   `json:"nil,omitempty"` // Scan / Err / Close returned a nil error
 	Err     *Err   `json:"err,omitempty"`     // Scan / Err / Close: the non-nil error
 	Closed  bool   `json:"closed,omitempty"`  // errors.Is(err, prolog.ErrClosed)
 	Panic   string `json:"panic,omitempty"`   // the call panicked (recovered in the calling goroutine)
